@@ -260,17 +260,19 @@ pub struct AStep {
     pub class_c: bool,
 }
 
-pub type ADev<const PW: u8, const GAIN: i8> = Device<ARadio<PW, GAIN>, ATimer, ScriptRng, 256, 4>;
+pub type ADev<const PW: u8, const GAIN: i8, const N: usize = 256> = Device<ARadio<PW, GAIN>, ATimer, ScriptRng, N, 4>;
 
-pub struct ACore<const PW: u8, const GAIN: i8> {
-    pub dev: ADev<PW, GAIN>,
+/// `N` is the size of the device's radio buffer (256 everywhere except where the buffer size itself
+/// is the subject).
+pub struct ACore<const PW: u8, const GAIN: i8, const N: usize = 256> {
+    pub dev: ADev<PW, GAIN, N>,
     pub inner: Rc<RefCell<AInner>>,
     pub rng: ScriptRng,
     pub cfg: DevCfg,
     pub dead: Option<String>,
 }
 
-impl<const PW: u8, const GAIN: i8> ACore<PW, GAIN> {
+impl<const PW: u8, const GAIN: i8, const N: usize> ACore<PW, GAIN, N> {
     pub fn new(cfg: &DevCfg, class_c: bool) -> Self {
         let inner = Rc::new(RefCell::new(AInner {
             log: vec![],
@@ -297,7 +299,7 @@ impl<const PW: u8, const GAIN: i8> ACore<PW, GAIN> {
             }
             Some(patched_session_cfg(cfg))
         };
-        let mut dev: ADev<PW, GAIN> = Device::new_with_session(make_region(cfg), ARadio(inner.clone()), ATimer(inner.clone()), rng.clone(), session);
+        let mut dev: ADev<PW, GAIN, N> = Device::new_with_session(make_region(cfg), ARadio(inner.clone()), ATimer(inner.clone()), rng.clone(), session);
         if class_c {
             dev.enable_class_c();
         }
